@@ -305,7 +305,12 @@ pub fn vec_fns(tr: &mut Tr, z: &[u8], zlib: bool, limits: &[i64]) {
 
 pub fn slice_iter(tr: &mut Tr, z: &[u8], zlib: bool, ignore_adler: bool, chunk: usize, out_len: usize) {
     let mut out = vec![0u8; out_len];
-    let slices: Vec<&[u8]> = if chunk == 0 { vec![z] } else { z.chunks(chunk).collect() };
+    let mut slices: Vec<&[u8]> = if chunk == 0 { vec![z] } else { z.chunks(chunk).collect() };
+    if chunk % 2 == 1 && slices.len() >= 2 {
+        // an iterator is free to yield empty slices: one in the middle, one in front
+        slices.insert(1, &z[..0]);
+        slices.insert(0, &z[..0]);
+    }
     let n = slices.len();
     let res = catch_unwind(AssertUnwindSafe(|| {
         decompress_slice_iter_to_slice(&mut out, slices.iter().copied(), zlib, ignore_adler)
